@@ -166,25 +166,29 @@ macro_rules! h_parse_mb {
     };
 }
 
-/// `parse(format(v))` asserted directly: the real formatting machinery produces the string
-/// (its length is symbolic: leading zeros are stripped), the real parser reads it back.
-/// Concrete vector length, symbolic contents.
-macro_rules! h_fmt_parse {
-    ($name:ident, $unw:literal, $T:ty, $a:expr, $fmt:literal, $f:ident) => {
+/// Long strings around the inline limit of `Bv`: only three characters (first, middle,
+/// last) are symbolic ASCII, the others are fixed digits (`$fill`), which keeps the query
+/// small while the dispatch by string length, the capacity boundary, the error index and
+/// the placement of the first / last digit are still decided for these lengths.
+macro_rules! h_parse_sparse {
+    ($name:ident, $unw:literal, $T:ty, $f:ident, $scan:ident, $bits:literal, $n:literal, $fill:literal, $cap:expr) => {
         harness!($name, $unw, {
-            let (a, ra) = $a;
-            w!(ra.v.is_zero(), "zero (formats as a single 0)");
-            w!(ra.len == 0 || ra.v.bit(ra.len - 1), "top bit set: as many digits as the length allows (or empty)");
-            w!(ra.len < 2 || (!ra.v.is_zero() && !ra.v.bit(ra.len - 1)), "non-zero with leading zeros stripped (or len < 2)");
-            let s = format!($fmt, a);
-            match <$T>::$f(&s) {
-                Ok(x) => {
-                    let rr = x.into_raw();
-                    assert!(rr.v == ra.v, "C15: parse(format(v)) differs in value from v");
-                    assert!(rr.len <= rr.cap, "C15: len > capacity");
-                }
-                Err(_) => assert!(false, "C15: the formatted output of a vector was rejected"),
-            }
+            let mut b = [$fill; $n];
+            let c0 = nd::u8();
+            let c1 = nd::u8();
+            let c2 = nd::u8();
+            nd::assume(c0 < 128 && c1 < 128 && c2 < 128);
+            b[0] = c0;
+            b[$n / 2] = c1;
+            b[$n - 1] = c2;
+            let sc = $scan(&b[..], $n);
+            let s: &str = unsafe { std::str::from_utf8_unchecked(&b[..]) };
+            w!(sc.bad == $n, "every character is a digit");
+            w!(sc.bad == $n && c0 == b'0', "all digits with a leading zero");
+            w!(sc.bad + 1 == $n, "only the last character offends");
+            w!(sc.bad == $n / 2, "the middle character is the first offender");
+            let r = <$T>::$f(s);
+            judge!(r, $n, $bits, $cap, sc.bad, sc.val);
         });
     };
 }
@@ -220,8 +224,8 @@ h_parse!(c15_t_bin_f8x2_n11, 14, Bvf<u8, 2>, from_binary, scan_bin, 1, 11, 16);
 h_parse!(c15_t_bin_f8x2_n12, 15, Bvf<u8, 2>, from_binary, scan_bin, 1, 12, 16);
 h_parse!(c15_t_bin_f8x2_n13, 16, Bvf<u8, 2>, from_binary, scan_bin, 1, 13, 16);
 h_parse!(c15_t_bin_f8x2_n14, 17, Bvf<u8, 2>, from_binary, scan_bin, 1, 14, 16);
-h_parse!(c15_q_bin_f8x3_n24, 27, Bvf<u8, 3>, from_binary, scan_bin, 1, 24, 24);
-h_parse!(c15_q_bin_f8x3_n25, 28, Bvf<u8, 3>, from_binary, scan_bin, 1, 25, 24);
+h_parse!(c15_t_bin_f8x3_n24, 27, Bvf<u8, 3>, from_binary, scan_bin, 1, 24, 24);
+h_parse!(c15_t_bin_f8x3_n25, 28, Bvf<u8, 3>, from_binary, scan_bin, 1, 25, 24);
 h_parse!(c15_t_bin_f8x3_n17, 20, Bvf<u8, 3>, from_binary, scan_bin, 1, 17, 24);
 h_parse!(c15_t_bin_f8x3_n23, 26, Bvf<u8, 3>, from_binary, scan_bin, 1, 23, 24);
 h_parse!(c15_q_bin_f16x1_n15, 18, Bvf<u16, 1>, from_binary, scan_bin, 1, 15, 16);
@@ -229,32 +233,13 @@ h_parse!(c15_q_bin_f16x1_n16, 19, Bvf<u16, 1>, from_binary, scan_bin, 1, 16, 16)
 h_parse!(c15_q_bin_f16x1_n17, 20, Bvf<u16, 1>, from_binary, scan_bin, 1, 17, 16);
 h_parse!(c15_t_bin_f16x1_n1, 4, Bvf<u16, 1>, from_binary, scan_bin, 1, 1, 16);
 h_parse!(c15_q_bin_f16x2_n17, 20, Bvf<u16, 2>, from_binary, scan_bin, 1, 17, 32);
-h_parse!(c15_q_bin_f16x2_n32, 35, Bvf<u16, 2>, from_binary, scan_bin, 1, 32, 32);
-h_parse!(c15_q_bin_f16x2_n33, 36, Bvf<u16, 2>, from_binary, scan_bin, 1, 33, 32);
 h_parse!(c15_t_bin_f16x2_n16, 19, Bvf<u16, 2>, from_binary, scan_bin, 1, 16, 32);
 h_parse!(c15_t_bin_f16x2_n31, 34, Bvf<u16, 2>, from_binary, scan_bin, 1, 31, 32);
-h_parse!(c15_t_bin_f64x2_n63, 66, Bvf<u64, 2>, from_binary, scan_bin, 1, 63, 128);
-h_parse!(c15_t_bin_f64x2_n64, 67, Bvf<u64, 2>, from_binary, scan_bin, 1, 64, 128);
-h_parse!(c15_t_bin_f64x2_n65, 68, Bvf<u64, 2>, from_binary, scan_bin, 1, 65, 128);
-h_parse!(c15_t_bin_f64x2_n127, 130, Bvf<u64, 2>, from_binary, scan_bin, 1, 127, 128);
-h_parse!(c15_t_bin_f64x2_n128, 131, Bvf<u64, 2>, from_binary, scan_bin, 1, 128, 128);
-h_parse!(c15_t_bin_f64x2_n129, 132, Bvf<u64, 2>, from_binary, scan_bin, 1, 129, 128);
-h_parse!(c15_t_bin_fuszx2_n65, 68, Bvf<usize, 2>, from_binary, scan_bin, 1, 65, 128);
 h_parse!(c15_t_bin_f128x1_n20, 23, Bvf<u128, 1>, from_binary, scan_bin, 1, 20, 128);
-h_parse!(c15_q_bin_bvd_n0, 3, Bvd, from_binary, scan_bin, 1, 0, NOCAP);
+h_parse!(c15_t_bin_bvd_n0, 3, Bvd, from_binary, scan_bin, 1, 0, NOCAP);
 h_parse!(c15_q_bin_bvd_n1, 4, Bvd, from_binary, scan_bin, 1, 1, NOCAP);
-h_parse!(c15_q_bin_bvd_n8, 11, Bvd, from_binary, scan_bin, 1, 8, NOCAP);
-h_parse!(c15_t_bin_bvd_n63, 66, Bvd, from_binary, scan_bin, 1, 63, NOCAP);
-h_parse!(c15_t_bin_bvd_n64, 67, Bvd, from_binary, scan_bin, 1, 64, NOCAP);
-h_parse!(c15_t_bin_bvd_n65, 68, Bvd, from_binary, scan_bin, 1, 65, NOCAP);
-h_parse!(c15_t_bin_bvd_n128, 131, Bvd, from_binary, scan_bin, 1, 128, NOCAP);
-h_parse!(c15_t_bin_bvd_n129, 132, Bvd, from_binary, scan_bin, 1, 129, NOCAP);
 h_parse!(c15_q_bin_bv_n0, 3, Bv, from_binary, scan_bin, 1, 0, NOCAP);
 h_parse!(c15_q_bin_bv_n5, 8, Bv, from_binary, scan_bin, 1, 5, NOCAP);
-h_parse!(c15_t_bin_bv_n64, 67, Bv, from_binary, scan_bin, 1, 64, NOCAP);
-h_parse!(c15_t_bin_bv_n127, 130, Bv, from_binary, scan_bin, 1, 127, NOCAP);
-h_parse!(c15_t_bin_bv_n128, 131, Bv, from_binary, scan_bin, 1, 128, NOCAP);
-h_parse!(c15_t_bin_bv_n129, 132, Bv, from_binary, scan_bin, 1, 129, NOCAP);
 // ==== from_hex, ASCII =========================================================================
 h_parse!(c15_q_hex_f8x1_n0, 3, Bvf<u8, 1>, from_hex, scan_hex, 4, 0, 8);
 h_parse!(c15_q_hex_f8x1_n1, 4, Bvf<u8, 1>, from_hex, scan_hex, 4, 1, 8);
@@ -284,23 +269,15 @@ h_parse!(c15_t_hex_f16x2_n4, 7, Bvf<u16, 2>, from_hex, scan_hex, 4, 4, 32);
 h_parse!(c15_t_hex_f64x2_n15, 18, Bvf<u64, 2>, from_hex, scan_hex, 4, 15, 128);
 h_parse!(c15_t_hex_f64x2_n16, 19, Bvf<u64, 2>, from_hex, scan_hex, 4, 16, 128);
 h_parse!(c15_t_hex_f64x2_n17, 20, Bvf<u64, 2>, from_hex, scan_hex, 4, 17, 128);
-h_parse!(c15_t_hex_f64x2_n32, 35, Bvf<u64, 2>, from_hex, scan_hex, 4, 32, 128);
-h_parse!(c15_t_hex_f64x2_n33, 36, Bvf<u64, 2>, from_hex, scan_hex, 4, 33, 128);
 h_parse!(c15_t_hex_f32x2_n9, 12, Bvf<u32, 2>, from_hex, scan_hex, 4, 9, 64);
 h_parse!(c15_t_hex_f32x2_n16, 19, Bvf<u32, 2>, from_hex, scan_hex, 4, 16, 64);
 h_parse!(c15_t_hex_f32x2_n17, 20, Bvf<u32, 2>, from_hex, scan_hex, 4, 17, 64);
-h_parse!(c15_q_hex_bvd_n0, 3, Bvd, from_hex, scan_hex, 4, 0, NOCAP);
+h_parse!(c15_t_hex_bvd_n0, 3, Bvd, from_hex, scan_hex, 4, 0, NOCAP);
 h_parse!(c15_q_hex_bvd_n1, 4, Bvd, from_hex, scan_hex, 4, 1, NOCAP);
-h_parse!(c15_t_hex_bvd_n15, 18, Bvd, from_hex, scan_hex, 4, 15, NOCAP);
-h_parse!(c15_t_hex_bvd_n16, 19, Bvd, from_hex, scan_hex, 4, 16, NOCAP);
-h_parse!(c15_t_hex_bvd_n17, 20, Bvd, from_hex, scan_hex, 4, 17, NOCAP);
-h_parse!(c15_t_hex_bvd_n33, 36, Bvd, from_hex, scan_hex, 4, 33, NOCAP);
 h_parse!(c15_q_hex_bv_n0, 3, Bv, from_hex, scan_hex, 4, 0, NOCAP);
 h_parse!(c15_q_hex_bv_n3, 6, Bv, from_hex, scan_hex, 4, 3, NOCAP);
 h_parse!(c15_t_hex_bv_n16, 19, Bv, from_hex, scan_hex, 4, 16, NOCAP);
 h_parse!(c15_t_hex_bv_n31, 34, Bv, from_hex, scan_hex, 4, 31, NOCAP);
-h_parse!(c15_t_hex_bv_n32, 35, Bv, from_hex, scan_hex, 4, 32, NOCAP);
-h_parse!(c15_t_hex_bv_n33, 36, Bv, from_hex, scan_hex, 4, 33, NOCAP);
 // ==== one multi-byte character at a symbolic position ===============================================
 h_parse_mb!(c15_q_binmb2_f8x1_n0, 5, Bvf<u8, 1>, from_binary, scan_bin, 1, 0, 2, 2, 8);
 h_parse_mb!(c15_q_binmb2_f8x1_n3, 8, Bvf<u8, 1>, from_binary, scan_bin, 1, 3, 2, 5, 8);
@@ -332,19 +309,13 @@ h_parse_mb!(c15_t_hexmb3_f8x2_n4, 10, Bvf<u8, 2>, from_hex, scan_hex, 4, 4, 3, 7
 h_parse_mb!(c15_q_hexmb3_f16x1_n2, 8, Bvf<u16, 1>, from_hex, scan_hex, 4, 2, 3, 5, 16);
 h_parse_mb!(c15_t_hexmb3_f16x1_n3, 9, Bvf<u16, 1>, from_hex, scan_hex, 4, 3, 3, 6, 16);
 h_parse_mb!(c15_t_hexmb3_f16x1_n4, 10, Bvf<u16, 1>, from_hex, scan_hex, 4, 4, 3, 7, 16);
-h_parse_mb!(c15_t_binmb2_f64x2_n127, 132, Bvf<u64, 2>, from_binary, scan_bin, 1, 127, 2, 129, 128);
-h_parse_mb!(c15_t_binmb2_f64x2_n128, 133, Bvf<u64, 2>, from_binary, scan_bin, 1, 128, 2, 130, 128);
-h_parse_mb!(c15_t_binmb2_bvd_n0, 5, Bvd, from_binary, scan_bin, 1, 0, 2, 2, NOCAP);
-h_parse_mb!(c15_t_binmb2_bvd_n7, 12, Bvd, from_binary, scan_bin, 1, 7, 2, 9, NOCAP);
-h_parse_mb!(c15_t_binmb2_bvd_n64, 69, Bvd, from_binary, scan_bin, 1, 64, 2, 66, NOCAP);
 h_parse_mb!(c15_t_binmb2_bv_n4, 9, Bv, from_binary, scan_bin, 1, 4, 2, 6, NOCAP);
-h_parse_mb!(c15_t_binmb2_bv_n127, 132, Bv, from_binary, scan_bin, 1, 127, 2, 129, NOCAP);
-h_parse_mb!(c15_t_binmb2_bv_n128, 133, Bv, from_binary, scan_bin, 1, 128, 2, 130, NOCAP);
-h_parse_mb!(c15_t_binmb3_bv_n126, 132, Bv, from_binary, scan_bin, 1, 126, 3, 129, NOCAP);
-h_parse_mb!(c15_t_hexmb2_bv_n31, 36, Bv, from_hex, scan_hex, 4, 31, 2, 33, NOCAP);
-h_parse_mb!(c15_t_hexmb2_bv_n32, 37, Bv, from_hex, scan_hex, 4, 32, 2, 34, NOCAP);
-// ==== parse(format(v)) directly (everything else follows from C14's digit strings + the oracle above)
-h_fmt_parse!(c15_t_fmtparse_bin_f8x2_l5, 9, Bvf<u8, 2>, f8x2(5), "{:b}", from_binary);
-h_fmt_parse!(c15_t_fmtparse_bin_f8x2_l10, 14, Bvf<u8, 2>, f8x2(10), "{:b}", from_binary);
-h_fmt_parse!(c15_t_fmtparse_hex_f8x2_l7, 6, Bvf<u8, 2>, f8x2(7), "{:x}", from_hex);
-h_fmt_parse!(c15_t_fmtparse_uhex_f8x2_l9, 7, Bvf<u8, 2>, f8x2(9), "{:X}", from_hex);
+// ==== around the inline limit of Bv and the capacity of Bvf<u64,2> (three symbolic characters) ===========
+h_parse_sparse!(c15_t_sparse_hex_bv_n32, 36, Bv, from_hex, scan_hex, 4, 32, b'a', NOCAP);
+h_parse_sparse!(c15_t_sparse_hex_bv_n33, 37, Bv, from_hex, scan_hex, 4, 33, b'a', NOCAP);
+h_parse_sparse!(c15_t_sparse_bin_bv_n128, 132, Bv, from_binary, scan_bin, 1, 128, b'1', NOCAP);
+h_parse_sparse!(c15_t_sparse_bin_bv_n129, 133, Bv, from_binary, scan_bin, 1, 129, b'1', NOCAP);
+h_parse_sparse!(c15_t_sparse_hex_f64x2_n32, 36, Bvf<u64, 2>, from_hex, scan_hex, 4, 32, b'a', 128);
+h_parse_sparse!(c15_t_sparse_hex_f64x2_n33, 37, Bvf<u64, 2>, from_hex, scan_hex, 4, 33, b'a', 128);
+h_parse_sparse!(c15_t_sparse_bin_f64x2_n128, 132, Bvf<u64, 2>, from_binary, scan_bin, 1, 128, b'1', 128);
+h_parse_sparse!(c15_t_sparse_bin_f64x2_n129, 133, Bvf<u64, 2>, from_binary, scan_bin, 1, 129, b'1', 128);
